@@ -24,10 +24,15 @@ def _env():
     e = dict(os.environ)
     e["CARGO_NET_OFFLINE"] = "true"
     e["CARGO_TARGET_DIR"] = TARGET
+    e["RUSTFLAGS"] = "--cfg p2panda_p2panda_verif"
     return e
 
 
 def _run_bin(entry, args, timeout=1800):
+    lock = os.path.join(RDIR, entry["crate"], "Cargo.lock")
+    if not os.path.exists(lock) and os.path.exists("/repo/Cargo.lock"):
+        import shutil
+        shutil.copy("/repo/Cargo.lock", lock)
     cmd = ["cargo", "run", "--offline", "-q", "--manifest-path", os.path.join(RDIR, entry["crate"], "Cargo.toml")]
     if entry.get("release", True):
         cmd.append("--release")
